@@ -149,6 +149,7 @@ inline int workerMain(int argc, char ** argv)
 	double timeLimit = 0;
 	const char * replayPath = nullptr;
 	const char * hashFile = nullptr;
+	const char * plansPath = nullptr;
 	bool logHashes = false;
 	long resched = -1;
 	for(int i = 1; i < argc; ++i) {
@@ -163,6 +164,7 @@ inline int workerMain(int argc, char ** argv)
 		else if(a == "--resched" && i + 1 < argc) resched = std::atol(argv[++i]);
 		else if(a == "--dump" && i + 1 < argc) dumpIndex = std::atol(argv[++i]);
 		else if(a == "--hashfile" && i + 1 < argc) hashFile = argv[++i];
+		else if(a == "--plans" && i + 1 < argc) plansPath = argv[++i];
 		else if(a == "--loghashes") logHashes = true;
 		else if(a == "--mode" && i + 1 < argc) engine::mode = argv[++i];
 		else { std::fprintf(stderr, "unknown argument %s\n", a.c_str()); return 2; }
@@ -180,9 +182,13 @@ inline int workerMain(int argc, char ** argv)
 #endif
 
 	if(dumpIndex >= 0) {
-		Plan plan;
-		engine::generate(mixSeed(base, (uint64_t)dumpIndex), plan);
-		std::printf("%s\n", planToJson(plan).c_str());
+		// --dump I prints plan I; with --count N it prints plans I .. I+N-1, one per line
+		const long n = count > 0 ? count : 1;
+		for(long k = 0; k < n; ++k) {
+			Plan plan;
+			engine::generate(mixSeed(base, (uint64_t)(dumpIndex + k)), plan);
+			std::printf("%s\n", planToJson(plan).c_str());
+		}
 		return 0;
 	}
 
@@ -207,6 +213,22 @@ inline int workerMain(int argc, char ** argv)
 		return 0;
 	}
 
+	// plans given as a file (one JSON plan per line; used by the configuration matrix so that every build executes the SAME plans)
+	std::vector<std::string> planLines;
+	if(plansPath) {
+		std::string text;
+		if(!readFile(plansPath, text)) { std::fprintf(stderr, "cannot read %s\n", plansPath); return 2; }
+		size_t pos = 0;
+		while(pos < text.size()) {
+			size_t e = text.find('\n', pos);
+			if(e == std::string::npos) e = text.size();
+			if(e > pos) planLines.push_back(text.substr(pos, e - pos));
+			pos = e + 1;
+		}
+		count = (long)planLines.size();
+		start = 0; stride = 1;
+	}
+
 	const double t0 = wallNow();
 	long runs = 0, violations = 0, nontrivial = 0, pilots = 0, subRuns = 0;
 	uint64_t steps = 0;
@@ -219,7 +241,12 @@ inline int workerMain(int argc, char ** argv)
 		workerState().currentIndex = index;
 		alarm(60); // watchdog: a real hang (e.g. self-deadlock on std::mutex) becomes a reported seed
 		Plan plan;
-		engine::generate(seed, plan);
+		if(plansPath) {
+			JVal root; JParser parser(planLines[(size_t)n]);
+			if(!parser.parse(root)) { std::fprintf(stderr, "bad plan line %ld\n", n); return 2; }
+			planFromJson(root, plan);
+		}
+		else engine::generate(seed, plan);
 		RunOut out;
 		bool reported = false;
 		if(engine::wantsPilot(plan)) {
